@@ -5,6 +5,7 @@ import (
 	"go/ast"
 	"go/token"
 	"go/types"
+	"sort"
 	"strings"
 
 	"golang.org/x/tools/go/cfg"
@@ -260,30 +261,10 @@ func init() {
 			// the macroexpand builtin: whichever function calls macroExpand1 from inside a loop (the
 			// loop may live in a helper shared with macroexpand-1)
 			if exp1 := c.LookupPkgFunc("lisp.macroExpand1"); exp1 != nil {
-				sites, _ := c.CallsTo(func(p string) bool { return rel(p) == "lisp" }, exp1)
-				seen := map[string]bool{}
 				n := 0
-				for _, st := range sites {
-					name := st.Unit.Name()
-					if seen[name] {
-						continue
-					}
-					seen[name] = true
-					fc := c.cfgOf(st.Unit, nil)
-					onCycle := false
-					for _, comp := range fc.cyclicSCCs(nil) {
-						for _, b := range comp {
-							for _, nd := range b.Nodes {
-								if nodeCalls(st.Unit.Pkg.TypesInfo, nd, exp1) != nil {
-									onCycle = true
-								}
-							}
-						}
-					}
-					if onCycle {
-						specs = append(specs, loopSpec{name, "lisp.macroExpand1"})
-						n++
-					}
+				for _, name := range c.loopsThrough(exp1) {
+					specs = append(specs, loopSpec{name, "lisp.macroExpand1"})
+					n++
 				}
 				if n == 0 {
 					specs = append(specs, loopSpec{"lisp.builtinMacroExpand", "lisp.macroExpand1"})
@@ -344,7 +325,7 @@ func init() {
 				// every cycle through the expansion call passes a test block
 				hasVia := func(b *cfg.Block) bool {
 					for _, n := range b.Nodes {
-						if via != nil && nodeCalls(info, n, via) != nil {
+						if via != nil && c.nodeCallsVia(info, n, via) != nil {
 							return true
 						}
 					}
@@ -420,18 +401,8 @@ func init() {
 			}
 			sites := []site{{"lisp.(*LEnv).eval", evs}}
 			// the function whose loop calls macroExpand1
-			cs, _ := c.CallsTo(func(p string) bool { return rel(p) == "lisp" }, exp1)
-			for _, st := range cs {
-				fc := c.cfgOf(st.Unit, nil)
-				for _, comp := range fc.cyclicSCCs(nil) {
-					for _, b := range comp {
-						for _, nd := range b.Nodes {
-							if nodeCalls(st.Unit.Pkg.TypesInfo, nd, exp1) != nil {
-								sites = append(sites, site{st.Unit.Name(), exp1})
-							}
-						}
-					}
-				}
+			for _, name := range c.loopsThrough(exp1) {
+				sites = append(sites, site{name, exp1})
 			}
 			var obs []Obligation
 			offsets := map[string]int{}
@@ -490,7 +461,7 @@ func init() {
 								return true
 							})
 						}
-						if nodeCalls(info, n, s.via) != nil && !haveE {
+						if c.nodeCallsVia(info, n, s.via) != nil && !haveE {
 							expLoc, haveE = Loc{b, i}, true
 						}
 					}
@@ -568,4 +539,46 @@ func init() {
 			}
 			return obs
 		}})
+}
+
+// loopsThrough: the functions of target's package whose control flow has a
+// cycle through a node that calls target — directly or through a private
+// helper (nodeCallsVia).  The evaluator funnels themselves are excluded.
+func (c *Ctx) loopsThrough(target *types.Func) []string {
+	pk := ""
+	if target.Pkg() != nil {
+		pk = target.Pkg().Path()
+	}
+	var out []string
+	for _, u := range c.Funcs(func(p string) bool { return p == pk }) {
+		if u.Decl == nil || u.Decl.Body == nil || c.evalLikeSet()[u.Obj] {
+			continue
+		}
+		info := u.Pkg.TypesInfo
+		mentions := false
+		for _, ce := range callsIn(u.Decl.Body, false) {
+			if c.nodeCallsVia(info, ce, target) != nil {
+				mentions = true
+			}
+		}
+		if !mentions {
+			continue
+		}
+		fc := c.cfgOf(u, nil)
+		on := false
+		for _, comp := range fc.cyclicSCCs(nil) {
+			for _, b := range comp {
+				for _, nd := range b.Nodes {
+					if c.nodeCallsVia(info, nd, target) != nil {
+						on = true
+					}
+				}
+			}
+		}
+		if on {
+			out = append(out, u.Name())
+		}
+	}
+	sort.Strings(out)
+	return out
 }
